@@ -137,14 +137,32 @@ theorem comps_push (p s : Str) (h : '/' ∉ s) (hdot : s ≠ ['.']) :
 
 /-! ### the segment filter -/
 
-theorem badSeg_false_iff (s : Str) : badSeg s = false ↔ s.head? ≠ some '.' ∧ '\\' ∉ s := by
-  simp [badSeg]
+/-- the separator the extractor found in the source is `/` -/
+theorem sep_eq : MJ.Gen.c17SafeJoinSep = '/' := by decide
+
+/-- the rules the extractor found in the source contain "hidden" and "backslash" -/
+theorem rules_cover : '.' ∈ MJ.Gen.c17RejectPrefix ∧ '\\' ∈ MJ.Gen.c17RejectContains := by decide
+
+theorem badSeg_of_head {s : Str} (h : s.head? = some '.') : badSeg s = true := by
+  have := rules_cover.1
+  simp only [badSeg, Bool.or_eq_true, List.any_eq_true]
+  exact Or.inl (Or.inl ⟨'.', this, by simp [h]⟩)
+
+theorem badSeg_of_mem {s : Str} (h : '\\' ∈ s) : badSeg s = true := by
+  have := rules_cover.2
+  simp only [badSeg, Bool.or_eq_true, List.any_eq_true]
+  exact Or.inl (Or.inr ⟨'\\', this, by simpa using h⟩)
+
+theorem badSeg_false_imp (s : Str) (h : badSeg s = false) : s.head? ≠ some '.' ∧ '\\' ∉ s := by
+  constructor
+  · intro e; rw [badSeg_of_head e] at h; exact absurd h (by decide)
+  · intro e; rw [badSeg_of_mem e] at h; exact absurd h (by decide)
 
 theorem not_dot_of_good {s : Str} (h : badSeg s = false) : s ≠ ['.'] := by
-  intro e; subst e; simp [badSeg] at h
+  intro e; subst e; exact (badSeg_false_imp _ h).1 rfl
 
 theorem not_dotdot_of_good {s : Str} (h : badSeg s = false) : s ≠ dotdot := by
-  intro e; subst e; simp [badSeg, dotdot] at h
+  intro e; subst e; exact (badSeg_false_imp _ h).1 rfl
 
 /-- what the loop of `safe_join` establishes -/
 theorem safeJoinLoop_some (rv p : Str) (segs : List Str) (hsep : ∀ s ∈ segs, '/' ∉ s)
@@ -254,5 +272,101 @@ theorem walk_plain_below (fs : FS) (d e : fs.Node) (segs : List Str) (h : ∀ s 
     | some x =>
       simp only [hc] at hw
       exact Below.trans (Below.step Below.refl hc) (ih x (fun t ht => h t (by simp [ht])) hw)
+
+/-! ### the loader, the template store and file-system histories -/
+
+/-- the answer `s` for the name `n` is what some snapshot of `past` held at the path
+    `safe_join(dir, n)` designates -/
+def Justified (dir : Str) (past : List (Snapshot × Str)) (n s : Str) : Prop :=
+  ∃ x ∈ past, x.2 = n ∧ ∃ p, safeJoin dir n = some p ∧ x.1 p = .content s
+
+def CacheOk (dir : Str) (past : List (Snapshot × Str)) (c : List (Str × Str)) : Prop :=
+  ∀ n s, (n, s) ∈ c → Justified dir past n s
+
+theorem Justified.mono {dir : Str} {past more : List (Snapshot × Str)} {n s : Str}
+    (h : Justified dir past n s) (hsub : ∀ x ∈ past, x ∈ more) : Justified dir more n s := by
+  obtain ⟨x, hx, h1, h2⟩ := h
+  exact ⟨x, hsub x hx, h1, h2⟩
+
+theorem lookup_mem {name s : Str} {c : List (Str × Str)} (h : lookup name c = some s) :
+    (name, s) ∈ c := by
+  induction c with
+  | nil => simp [lookup] at h
+  | cons x r ih =>
+    obtain ⟨n, t⟩ := x
+    simp only [lookup] at h
+    by_cases hn : n = name
+    · simp only [hn, if_true, Option.some.injEq] at h
+      subst hn; subst h; simp
+    · simp only [hn, if_false] at h
+      exact List.mem_cons_of_mem _ (ih h)
+
+theorem load_found {l : Loader} {fs : Snapshot} {name s : Str} (h : l.load fs name = .found s) :
+    ∃ p, safeJoin l.base name = some p ∧ fs p = .content s := by
+  unfold Loader.load at h
+  cases hj : safeJoin l.base name with
+  | none => simp [hj] at h
+  | some p =>
+    simp only [hj] at h
+    cases hf : fs p with
+    | content t => simp only [hf, LoadResult.found.injEq] at h; subst h; exact ⟨p, rfl, hf⟩
+    | notFound => simp [hf] at h
+    | failed => simp [hf] at h
+
+/-- one request: the answer is justified by the store or by the snapshot of the moment, and the
+    store stays justified -/
+theorem get_step (dir : Str) (e : Env) (past : List (Snapshot × Str)) (fs : Snapshot) (name : Str)
+    (hb : e.loader.base = dir) (hc : CacheOk dir past e.cache) :
+    (e.get fs name).2.loader.base = dir ∧
+    CacheOk dir (past ++ [(fs, name)]) (e.get fs name).2.cache ∧
+    ∀ s, (e.get fs name).1 = .found s → Justified dir (past ++ [(fs, name)]) name s := by
+  have mono : ∀ n s, Justified dir past n s → Justified dir (past ++ [(fs, name)]) n s :=
+    fun n s h => h.mono (fun x hx => by simp [hx])
+  unfold Env.get
+  cases hl : lookup name e.cache with
+  | some t =>
+    refine ⟨hb, fun n s hm => mono n s (hc n s hm), fun s hs => ?_⟩
+    simp only [LoadResult.found.injEq] at hs
+    subst hs
+    exact mono name t (hc name t (lookup_mem hl))
+  | none =>
+    simp only []
+    cases hr : e.loader.load fs name with
+    | found t =>
+      obtain ⟨p, hp, hf⟩ := load_found hr
+      rw [hb] at hp
+      have hj : Justified dir (past ++ [(fs, name)]) name t :=
+        ⟨(fs, name), by simp, rfl, p, hp, hf⟩
+      refine ⟨hb, fun n s hm => ?_, fun s hs => ?_⟩
+      · simp only [List.mem_cons, Prod.mk.injEq] at hm
+        rcases hm with ⟨rfl, rfl⟩ | hm
+        · exact hj
+        · exact mono n s (hc n s hm)
+      · simp only [LoadResult.found.injEq] at hs
+        subst hs; exact hj
+    | missing => exact ⟨hb, fun n s hm => mono n s (hc n s hm), fun s hs => by simp at hs⟩
+    | unreadable => exact ⟨hb, fun n s hm => mono n s (hc n s hm), fun s hs => by simp at hs⟩
+
+theorem run_justified (dir : Str) (h : List (Snapshot × Str)) (e : Env) (past : List (Snapshot × Str))
+    (hb : e.loader.base = dir) (hc : CacheOk dir past e.cache) :
+    (∀ n s, (n, LoadResult.found s) ∈ e.run h → Justified dir (past ++ h) n s) ∧
+    CacheOk dir (past ++ h) (e.after h).cache ∧ (e.after h).loader.base = dir := by
+  induction h generalizing e past with
+  | nil => simp only [Env.run, Env.after, List.append_nil]; exact ⟨fun n s hm => by simp at hm, hc, hb⟩
+  | cons x rest ih =>
+    obtain ⟨fs, name⟩ := x
+    obtain ⟨g1, g2, g3⟩ := get_step dir e past fs name hb hc
+    obtain ⟨i1, i2, i3⟩ := ih (e.get fs name).2 (past ++ [(fs, name)]) g1 g2
+    have assoc : past ++ [(fs, name)] ++ rest = past ++ (fs, name) :: rest := by simp
+    rw [assoc] at i1 i2
+    refine ⟨fun n s hm => ?_, by simpa [Env.after] using i2, by simpa [Env.after] using i3⟩
+    simp only [Env.run, List.mem_cons, Prod.mk.injEq] at hm
+    rcases hm with ⟨rfl, hr⟩ | hm
+    · exact (g3 s hr.symm).mono (fun y hy => by
+        simp only [List.mem_append, List.mem_cons, List.not_mem_nil, or_false] at hy ⊢
+        rcases hy with hy | hy
+        · exact Or.inl hy
+        · exact Or.inr (Or.inl hy))
+    · exact i1 n s hm
 
 end MJ.Path
